@@ -1122,6 +1122,39 @@ pub fn check_deep<Q: QueueLike>(q: &Q, m: &Model, unordered: bool) -> Result<(),
             return Err(format!("get_mut({k}) = {g:?}, the map holds {v:?}"));
         }
     }
+    // the sorted vectors and the sorted iterator (also of the empty queue): every element once;
+    // in order unless the order is currently unspecified
+    let prio_of = |k: u32| m.get(&k).map(|v| v.1);
+    let mut vs: Vec<(&str, Vec<u32>, bool)> = vec![("the descending sorted vector", q.clone().q_into_desc_vec().iter().map(|i| i.key).collect(), true)];
+    if Q::DOUBLE {
+        vs.push(("into_ascending_sorted_vec", q.clone().q_into_asc_vec().iter().map(|i| i.key).collect(), false));
+    }
+    {
+        let mut it = q.clone().q_into_sorted_iter();
+        let mut ks = vec![];
+        while let Some((i, _)) = it.nx() {
+            ks.push(i.key);
+            if ks.len() > m.len() + 1 {
+                break;
+            }
+        }
+        // PriorityQueue's sorted iterator is descending, DoublePriorityQueue's ascending
+        vs.push(("into_sorted_iter", ks, !Q::DOUBLE));
+    }
+    for (what, keys, desc) in vs {
+        let mut sorted_keys = keys.clone();
+        sorted_keys.sort();
+        let all: Vec<u32> = m.keys().copied().collect();
+        if sorted_keys != all {
+            return Err(format!("{what} yields items {keys:?}, the map holds {all:?}"));
+        }
+        if !unordered {
+            let ps: Vec<i32> = keys.iter().filter_map(|&k| prio_of(k)).collect();
+            if ps.windows(2).any(|w| if desc { w[0] < w[1] } else { w[0] > w[1] }) {
+                return Err(format!("{what} is not monotone: priorities {ps:?}"));
+            }
+        }
+    }
     Ok(())
 }
 
